@@ -299,6 +299,58 @@ fn run_lint_case(text: &str) -> String {
     }
 }
 
+// ---------------------------------------------------------------- the interactive loop
+
+/// `duck` without arguments reads lines from stdin, runs each as it comes on the SAME context and
+/// prints the message of a crashing line instead of stopping.  The lines of a `repl` request are
+/// straight-line commands (no jumps), the last one is `exit`; the library oracle runs each line as
+/// a script of its own on the context the previous line returned (a crashing line — only unknown
+/// commands crash here — leaves the context as it was and contributes its message).
+fn run_repl_case(text: &str) -> String {
+    let obs = run_duck(&[], Some(text));
+    let mut ctx = sdk_context();
+    let mut expected = String::new();
+    for line in text.lines() {
+        if line.trim() == "exit" {
+            break;
+        }
+        let buf = Rc::new(RefCell::new(Vec::new()));
+        let halt = guarded_halt(3000);
+        let env = Env::new(Some(Box::new(Cap(buf.clone()))), Some(Box::new(crate::scripted::Sink)), Some(halt.clone()));
+        let keep = ctx.clone();
+        match duckscript::runner::run_script(line, ctx, Some(env)) {
+            Ok(c) => {
+                ctx = c;
+                expected.push_str(&String::from_utf8_lossy(&buf.borrow()));
+            }
+            Err(e) => {
+                ctx = keep;
+                expected.push_str(&String::from_utf8_lossy(&buf.borrow()));
+                expected.push_str(&format!("{}\n", e));
+            }
+        }
+    }
+    if obs.status == Some(0) && obs.stdout == expected {
+        "repl".to_string()
+    } else {
+        format!("repl-DIFFERS status={:?} stdout={} expected={}", obs.status, enc_str(&obs.stdout), enc_str(&expected))
+    }
+}
+
+const REPL_LINES: [&str; 18] = [
+    "echo a b", "x = set v", "echo ${x}", "badcommand", "other_unknown a b", "trigger_error first", "e = get_last_error", "echo last=${e}",
+    "y = array_length nope", "echo y=${y}", "dir = set c:\\\\temp\\\\", "echo ${dir} next", ":lbl echo labelled", "", "# comment",
+    "l = get_last_error_line", "echo line=${l}", "echo \"two words\" ${x}",
+];
+
+fn gen_repl(rng: &mut Rng) -> Case {
+    let n = 1 + rng.below(7);
+    let mut lines: Vec<&str> = (0..n).map(|_| rng.pick_s(&REPL_LINES)).collect();
+    lines.push("exit");
+    let text = format!("{}\n", lines.join("\n"));
+    case(format!("repl {}", enc_str(&text)), vec!["form:repl-lines"], true)
+}
+
 // ---------------------------------------------------------------- generators
 
 const LOWER_NAMES: [&str; 8] = ["out", "x", "my_var", "v1", "é", "res.a", "ß2", "日本"];
@@ -495,6 +547,18 @@ impl Prop for C20Prop {
             out.push(case(cli_req(&["--lint", FILE_ARG], Some(text)), vec!["form:--lint", tag, "fixed"], true));
             out.push(case(format!("lint {}", enc_str(text)), vec!["op:lint", tag, "fixed"], true));
         }
+        // the interactive loop: what a crashing line leaves behind (variables, the last-error
+        // record, live handles) is what the next line sees
+        for t in [
+            "trigger_error first\nbadcommand\ne = get_last_error\necho last=${e}\nexit\n",
+            "h = array a b c\nnope x\nn = array_length ${h}\necho n=${n}\nexit\n",
+            "x = set kept\nbad\nbad again\necho ${x}\nexit\n",
+            "dir = set c:\\\\temp\\\\\necho ${dir} next\nexit\n",
+            "echo a\n\n# c\n:l echo b\nexit\n",
+            "exit\n",
+        ] {
+            out.push(case(format!("repl {}", enc_str(t)), vec!["form:repl-lines", "fixed"], true));
+        }
         // missing file
         out.push(case(cli_req(&[FILE_ARG], None), vec!["form:file", "missing-file", "fixed"], true));
         out.push(case(cli_req(&["-l", FILE_ARG], None), vec!["form:-l", "missing-file", "fixed"], true));
@@ -518,6 +582,9 @@ impl Prop for C20Prop {
         let text = script(rng, kind, mixed);
         let mtag = if mixed { "spelling:mixed-case" } else { "spelling:lower-case" };
         let dom = in_domain_text(&text);
+        if rng.chance(1, 10) {
+            return gen_repl(rng);
+        }
         let form = rng.below(12);
         // run forms: sometimes a `!print` line (printed once, when the text is parsed)
         let text = if (3..=6).contains(&form) && kind != Kind::ParseError && rng.chance(1, 3) {
@@ -574,13 +641,14 @@ impl Prop for C20Prop {
                 run_cli_case(&args, content.as_deref())
             }
             "lint" => run_lint_case(&dec_str(t[1]).expect("text")),
+            "repl" => run_repl_case(&dec_str(t[1]).expect("text")),
             _ => "?".to_string(),
         }
     }
     fn relation(&self, _req: &str, _model_out: &str, imp: &str) -> Option<bool> {
         // the executable's observed status/stdout satisfied what the property demands relative
         // to the in-process library (independent of the model)
-        Some(!(imp.starts_with("nomatch") || imp.contains("REL-VIOLATED") || imp == "PANIC"))
+        Some(!(imp.starts_with("nomatch") || imp.contains("REL-VIOLATED") || imp == "PANIC" || imp.starts_with("repl-DIFFERS")))
     }
     fn shrink(&self, req: &str) -> Vec<String> {
         let t: Vec<&str> = req.split(' ').collect();
